@@ -295,11 +295,18 @@ func (h *Handler) saltAuthToken(req *http.Request, remote string) (updatedReq *h
 	}
 	updatedReq.Header = http.Header{}
 	for k, v := range req.Header {
-		if k != "Authorization" {
+		if k != "Authorization" && k != "Cookie" {
 			updatedReq.Header[k] = v
 		}
 	}
 	updatedReq.Header.Set("Authorization", "Bearer "+token)
+	// Forward cookies except the one that carries an unsalted
+	// token (see auth.LoadTokensFromHTTPRequest).
+	for _, cookie := range req.Cookies() {
+		if cookie.Name != "arvados_api_token" {
+			updatedReq.AddCookie(cookie)
+		}
+	}
 
 	// Remove api_token=... from the query string, in case we
 	// end up forwarding the request.
